@@ -66,6 +66,7 @@ def trace_class(cname, cls, inf_params=()):
     def which(lst):
         if lst is f.list_of_points: return "all"
         if lst is f.list_of_stationary_points: return "stationary"
+        if getattr(f, "T", None) is not None and lst is f.T.list_of_points: return "adjoint"
         return "other"
 
     def w1(list_of_points, constraint_name, set_class_constraint_i):
@@ -111,7 +112,7 @@ def trace_class(cname, cls, inf_params=()):
             if c.get_name().endswith("block_0(xi, xj)"):
                 special["smoothness_convexity_block"] = dict(sense=c.equality_or_inequality, form=qform(c.expression),
                                                              note="block k: symbols gik, gjk; parameter L0 = L[k]")
-    if cname == "LinearOperator":
+    if cname == "LinearOperator" and "adjoint" not in conds:
         c = f.list_of_class_constraints[0]       # x_i * v_j == y_i * u_j for (first sample of M, first sample of T)
         # find the one pairing (xi, .) with the adjoint sample (xj as u, gj as v)
         for c in f.list_of_class_constraints:
@@ -171,9 +172,11 @@ def main(out_json, out_lean):
                 lean += lean_qform("%s.lmi%d_entry_jj" % (ns, l["index"]), r["params"], l["entry_jj"],
                                    "%s, LMI %d over adjoint samples, diagonal entry" % (ns, l["index"]))
     # glue table: per class (finite-parameter variant and, where relevant, the inf variant)
-    lean += "/-- which list a condition ranges over -/\ninductive ListSel where\n  | all | stationary\n  deriving Repr, DecidableEq\n\n"
+    lean += "/-- which list a condition ranges over (`adjoint`: the samples of the transpose of a linear operator) -/\ninductive ListSel where\n  | all | stationary | adjoint\n  deriving Repr, DecidableEq\n\n"
     lean += "/-- one call of `add_constraints_from_one_list_of_points` / `..._two_lists_of_points` -/\nstructure CondSpec where\n  name : String\n  two : Bool\n  l1 : ListSel\n  l2 : ListSel\n  symmetry : Bool\n  isEq : Bool\n  form : List Coef → QForm\n\n"
-    def sel(x): return ".all" if x == "all" else ".stationary"
+    def sel(x):
+        if x not in ("all", "stationary", "adjoint"): raise ValueError("condition over an unknown list: %r" % (x,))
+        return "." + x
     for r in res:
         ns = r["cls"]; suffix = "_inf" if r["inf_params"] else ""
         entries = []
